@@ -144,6 +144,23 @@ let () =
                 let pt = Sx.atom pt in
                 out ("links." ^ pt) (links_key !s pt (Sx.atoms names) (Sx.atoms doms))
             | _ -> failwith "bad observer") obs) ops
+    | [id; Sx.A "memo"; fam; Sx.L (Sx.A "cfg" :: cfg); Sx.L (Sx.A "content" :: content); Sx.L (Sx.A "ops" :: ops)] ->
+        let id = Sx.atom id in
+        let cfg = parse_cfg (Sx.L cfg) in
+        let fam = if Sx.atom fam = "domain" then Memo.FDomain else Memo.FRbac in
+        let content = Stdlib.List.map (fun x -> match Sx.list x with
+          | [pt; r] -> (cs (Sx.atom pt), crule (Sx.atoms r)) | _ -> failwith "bad content") content in
+        let c = ref (Memo.cinit cfg false content) in
+        Stdlib.List.iteri (fun k opx ->
+          let op = match opx with
+            | Sx.L [Sx.A "enf"; req] -> Memo.CEnforce (crule (Sx.atoms req))
+            | o -> Memo.CMach (parse_op o) in
+          let (c', r) = Memo.cstep cfg fam !c op in
+          c := c';
+          match r with
+          | Memo.CRes r -> Printf.printf "%s\t%d.res\t%s\n" id k (res_str r)
+          | Memo.CDec (Memo.EDec b) -> Printf.printf "%s\t%d.enf\t%s\n" id k (Sx.b2s b)
+          | Memo.CDec Memo.EErr -> Printf.printf "%s\t%d.enf\terr\n" id k) ops
     | [id; Sx.A "hier"; gs; ps; domidx] ->
         let dom = let d = int_of_string (Sx.atom domidx) in if d < 0 then None else Some (Conv.nat_of_int d) in
         let v = match Priority.sort_by_hierarchy (crules gs) dom (crules ps) with
